@@ -98,7 +98,7 @@ Print Assumptions C11_source_estimate_total.
    (bucket sizes >= 1 in ascending order, pairwise different file names) - appends accepted or refused (every level follows),
    full / bounded / first-n reads, RESAMPLING READS THROUGH THE LEVELS, counts, accessors, with any arguments - run on the model
    of the library is ACCEPTED BY THE JUDGE at every step: the answer of a resampling read is the uniform bucket means of one of
-   the levels the judge admits, and after every step the files of the model - the data and index file of the series and of
+   the levels the judge allows, and after every step the files of the model - the data and index file of the series and of
    EVERY level - are byte for byte the files the judge expects (each level: the bucket means of the source) *)
 Theorem C11_session_with_caches_accepted_by_judge : forall (name:list byte) (p:nat) (hdr:list byte) (Bs:list N),
   (len (params_to_text BSgen.Consts.version (N.of_nat p) ++ hdr) <= 65535)%N ->
